@@ -43,6 +43,7 @@
 #include "crypto_aes.h"
 #include "crypto_aesctr.h"
 
+#include "alloc.h"
 #include "es.h"
 #include "vf.h"
 #include "ref/ref_aes.h"
@@ -586,7 +587,38 @@ stream_unit(int pair, int variant, int content)
 }
 
 /* ------------------------------------------------------------------ units */
-static int n_block_units, n_buf_units, n_stream_units;
+static int n_block_units, n_buf_units, n_stream_units, n_fault_units;
+
+/*
+ * C03 only: the accelerated path's own self-test FAILS in this process, because the k-th allocation made by the
+ * first use of the AES code (k = 1, 2: the two self-test vectors each expand a key on the heap) returns NULL
+ * once.  crypto_aes.c then falls back to the portable code for the rest of the process while the CPU still
+ * reports AES-NI; every later block, one-shot and stream result must still be the reference value.
+ */
+static int a_faulted;
+static void
+selftest_fault_unit(int f, int rt)
+{
+	int u, k, b;
+	uint64_t n = 0;
+
+	a_faulted = 1;
+	if (hc_expect_aes(HC_BUILD_MASK, rt) != 1) { vf_count("selftest-fault.units_done", 1); return; }	/* nothing to disable */
+	if (LK[0] != NULL || verif_aes_path() != 9) vf_engine_error("selftest-fault unit: the AES code was already initialised in this process");
+	alloc_reset(); alloc_fail_at((size_t)(1 + f), 0); alloc_track(1);
+	keys_init();
+	alloc_track(0);
+	if (alloc_failed_count() != 1) vf_engine_error("selftest-fault unit: %d allocations failed (expected exactly 1)", alloc_failed_count());
+	alloc_fail_at(0, 0);
+	if (verif_aes_path() != 0) vf_engine_error("selftest-fault unit: allocation %d failed but the AES path is %d, not the portable one", 1 + f, verif_aes_path());
+	for (k = 384; k < NKEYS; k++) for (b = 128; b < NBLKS; b++) { vf_setcase("selftest-fault alloc#%d: block key=%d blk=%d", 1 + f, k, b); n += block_case(k, b, 0); }
+	vf_count("selftest-fault.states", n); vf_count("selftest-fault.transitions", n); vf_count("selftest-fault.traces", n);
+	for (u = 0; u < n_buf_units; u++) ctrbuf_unit(u);
+	stream_unit(first_pair, 1, 0);
+	vf_count("ctrbuf.units_extra", (uint64_t)n_buf_units); vf_count("aesctr.units_extra", 1);
+	vf_count("selftest-fault.units_done", 1);
+	vf_sample("AES-NI self-test made to fail (allocation #%d of the first use returns NULL once): AES falls back to the portable code, AES-CTR follows; block, one-shot and stream results equal the reference", 1 + f);
+}
 
 void
 haes_setup(int profile, const char * prop, int rtloop)
@@ -597,14 +629,16 @@ haes_setup(int profile, const char * prop, int rtloop)
 	n_block_units = (NKEYS + BLOCK_KEYS_PER_UNIT - 1) / BLOCK_KEYS_PER_UNIT;
 	n_buf_units = 8;
 	n_stream_units = n_pairs * 4 * n_contents;
+	n_fault_units = (rtloop && (HC_BUILD_MASK & HC_AESNI)) ? 2 : 0;
 }
-uint64_t haes_nunits(void){ return ((uint64_t)(n_block_units + n_buf_units + n_stream_units)); }
+uint64_t haes_nunits(void){ return ((uint64_t)(n_block_units + n_buf_units + n_stream_units + n_fault_units)); }
 
 static int used_ctr;
 void
 haes_run_unit(uint64_t u, int rt)
 {
 	a_rt = rt;
+	if (u >= (uint64_t)(n_block_units + n_buf_units + n_stream_units)) { used_ctr = 1; selftest_fault_unit((int)(u - (uint64_t)(n_block_units + n_buf_units + n_stream_units)), rt); return; }
 	keys_init();
 	/* stream units first: they are the long ones */
 	if (u < (uint64_t)n_stream_units) {
@@ -621,6 +655,7 @@ haes_check_paths(int rt)
 	int ea = hc_expect_aes(HC_BUILD_MASK, rt), p = verif_aes_path();
 	char k[64];
 
+	if (a_faulted) return;		/* selftest_fault_unit() made its own checks */
 	if (p != ea) vf_engine_error("build %d rt %d: AES selected path %d, intended %d (self-test failed or forcing ineffective)", HC_BUILD_MASK, rt, p, ea);
 	if (used_ctr && verif_aesctr_path() != ea) vf_engine_error("build %d rt %d: AES-CTR selected path %d, intended %d", HC_BUILD_MASK, rt, verif_aesctr_path(), ea);
 	if (ea == 1 ? (verif_aes_calls_aesni < 3 || verif_aes_calls_openssl != 0 || (used_ctr && verif_aesctr_calls_aesni == 0))
@@ -636,8 +671,9 @@ haes_finish(uint64_t nrt)
 	char b[800]; size_t o = 0; int i;
 
 	if (vf_getcount("aesblock.units_done") == (uint64_t)n_block_units * nrt) vf_setmax("aesblock.exhaustive", 1);
-	if (vf_getcount("ctrbuf.units_done") == (uint64_t)n_buf_units * nrt) vf_setmax("ctrbuf.exhaustive", 1);
-	if (vf_getcount("aesctr.units_done") == (uint64_t)n_stream_units * nrt) vf_setmax("aesctr.exhaustive", 1);
+	if (vf_getcount("ctrbuf.units_done") == (uint64_t)n_buf_units * nrt + vf_getcount("ctrbuf.units_extra")) vf_setmax("ctrbuf.exhaustive", 1);
+	if (vf_getcount("aesctr.units_done") == (uint64_t)n_stream_units * nrt + vf_getcount("aesctr.units_extra")) vf_setmax("aesctr.exhaustive", 1);
+	if (n_fault_units) { vf_count("selftest-fault.exhaustive", 0); if (vf_getcount("selftest-fault.units_done") == (uint64_t)n_fault_units * nrt) vf_setmax("selftest-fault.exhaustive", 1); }
 	for (i = 0; i < nREG; i++) o += (size_t)snprintf(b + o, sizeof(b) - o, "%s[%llu,%llu]", i ? " u " : "", (unsigned long long)REG[i].lo, (unsigned long long)REG[i].hi);
 	o += (size_t)snprintf(b + o, sizeof(b) - o, "; K={");
 	for (i = 0; i < nK_ctr; i++) o += (size_t)snprintf(b + o, sizeof(b) - o, "%s%d", i ? "," : "", K_ctr[i]);
